@@ -212,6 +212,13 @@ def main(argv=None):
     }
     with open(os.path.join(OUT, "evidence", f"{pid}.json"), "w") as f:
         json.dump(ev, f, indent=1, default=str)
+    if violations:
+        mech = {}
+        for kind, v in violations:
+            k = {"input": v.get("kind", "oracle") if isinstance(v, dict) else "oracle", "static": "static-frame", "obligation": "deductive-obligation"}.get(kind, kind)
+            k = {"oracle": "bounded-oracle", "contract": "bounded-armed-monitor"}.get(k, k)
+            mech[k] = mech.get(k, 0) + 1
+        print("MECHANISMS " + " ".join(f"{k}={n}" for k, n in sorted(mech.items())))
     print(f"{pid} tier={tier}: functions={len(keys)} obligations={n_obl} discharged={n_dis} static={static.get('passed', 0)}/{static.get('checks', 0)} degraded={len(degraded)} "
           f"bounded_evals={bounded.get('evaluations', 0)} level={level} wall={time.time() - t0:.1f}s")
     for ln in lines:
